@@ -637,6 +637,10 @@ class ObjectMethod(DeserializationMethod):
                 field_errors = set_child_error(field_errors, field.alias, error)
         if self.aggregate_fields:
             remain = data.keys() - self.all_aliases
+            if discriminator is not None:
+                # the discriminator property belongs to the union, not to the
+                # pattern / additional properties of the alternative
+                remain.discard(discriminator)
             for flattened_field in self.flattened_fields:
                 flattened: dict = {
                     alias: data[alias]
